@@ -18,7 +18,10 @@ HANDLER = "mc.checks.c10:handle"
 TIMEOUT = 600.0
 
 PARENT = {('a', 1): None, ('a', 2): None, ('b', 1): 'a', ('b', 2): 'c',
-          ('c', 1): 'a', ('c', 2): 'b'}
+          ('c', 1): 'a', ('c', 2): 'b',
+          # 'd': a root whose parent id is the empty string (variant 1) /
+          # a child of 'a' (variant 2)
+          ('d', 1): '', ('d', 2): 'a'}
 ALPH = [(i, v) for i in 'abc' for v in (1, 2)]
 
 
@@ -30,7 +33,7 @@ def span(i, v):
 
 def row(i, v):
     return (i, f"t{i}{v}", f"n{v}", f"j{v}", 10 * v, 10 * v + 5, f"app{v}",
-            PARENT[(i, v)])
+            PARENT[(i, v)] or None)
 
 
 def splits(n, maxruns):
@@ -63,6 +66,13 @@ def build(tier, ctx):
         for i in range(0, len(seqs6), 16):
             tasks.append({"seqs": seqs6[i:i + 16], "bs": [1, 2, 3, 7],
                           "maxruns": 2})
+    # empty-string parent ids: stored as "no parent", no link
+    alph_d = [('a', 1), ('b', 1), ('d', 1), ('d', 2)]
+    seqs_d = [s for ln in range(1, 4 if tier == "quick" else 5)
+              for s in itertools.product(alph_d, repeat=ln)
+              if any(i == 'd' for i, _ in s)]
+    for i in range(0, len(seqs_d), 8):
+        tasks.append({"seqs": seqs_d[i:i + 8], "bs": "all", "maxruns": 2})
     # scale: batches around 999/1000 distinct ids, re-ingested (a second run
     # has to recognise every stored id)
     sizes = [(999, 1000), (1000, 1000), (1001, 1000), (1001, 2000),
